@@ -8,7 +8,7 @@ __all__ = ('threads_pool_registry',)
 class PoolExecutorRegistry(BasePoolExecutorRegistry):
 
     def is_ready(self) -> None:
-        if not self._pool_executor or self._pool_executor._shutdown:
+        if not self._pool_executor or self._pool_executor._shutdown or self._pool_executor._broken:
             raise RuntimeError('Исполнение невозможно без указания пула потоков')
 
     def auto_init(self) -> None:
